@@ -592,3 +592,97 @@ Proof.
     rewrite (ltb_R (abs x) c2p51 Fa fin_c2p51), abs_R, RV_c2p51, Rlt_bool_false by lra.
     apply b64_fmod_slow_1_correct. exact Fx.
 Qed.
+
+(* ----------------------------- (6) kernel of Angle.reduce_deg: exact fmod 360 *)
+Lemma mul_R x y : fin x -> fin y -> Rabs (RN (RV x * RV y)) < bpow radix2 emax ->
+  RV (x * y) = RN (RV x * RV y) /\ fin (x * y).
+Proof.
+  intros Fx Fy Hb. unfold RV, fin. rewrite mul_equiv.
+  generalize (Bmult_correct prec emax Hprec Hmax mode_NE (Prim2B x) (Prim2B y)).
+  rewrite Rlt_bool_true by exact Hb. intros (A & B & _). split; [exact A|].
+  rewrite B. unfold fin in Fx, Fy. rewrite Fx, Fy. reflexivity.
+Qed.
+
+Lemma floor_div_nested a n : (0 < n)%Z -> Zfloor (a / IZR n) = (Zfloor a / n)%Z.
+Proof.
+  intro Hn. set (t := Zfloor a). set (q := (t / n)%Z).
+  assert (0 < IZR n) as Hn' by (apply IZR_lt; exact Hn).
+  pose proof (Zfloor_lb a) as Hl. pose proof (Zfloor_ub a) as Hu. fold t in Hl, Hu.
+  pose proof (Z.div_mod t n ltac:(lia)) as Hdm. pose proof (Z.mod_pos_bound t n Hn) as Hm. fold q in Hdm.
+  apply Zfloor_imp. rewrite plus_IZR. simpl (IZR 1).
+  assert (IZR n * IZR q <= IZR t) as H1 by (rewrite <- mult_IZR; apply IZR_le; lia).
+  assert (IZR t + 1 <= IZR n * IZR q + IZR n) as H2.
+  { rewrite <- mult_IZR, <- (plus_IZR _ n). change 1 with (IZR 1). rewrite <- plus_IZR. apply IZR_le. lia. }
+  split.
+  - apply Rmult_le_reg_r with (IZR n); [exact Hn'|]. unfold Rdiv. rewrite Rmult_assoc, Rinv_l by lra. lra.
+  - apply Rmult_lt_reg_r with (IZR n); [exact Hn'|]. unfold Rdiv. rewrite Rmult_assoc, Rinv_l by lra. lra.
+Qed.
+
+(* for a finite a >= 0:  float(int(a) % 360) + a % 1.0  is computed without any rounding
+   and equals a - 360 floor(a/360) *)
+Theorem reduce_kernel a : fin a -> 0 <= RV a ->
+  let s := (b64_of_Z (b64_trunc a mod 360) + b64_fmod a 1)%float in
+  RV s = RV a - 360 * IZR (Zfloor (RV a / 360)) /\ fin s /\ 0 <= RV s < 360.
+Proof.
+  intros Fa Ha s.
+  assert (b64_trunc a = Zfloor (RV a)) as Ht.
+  { rewrite b64_trunc_correct by exact Fa. unfold Ztrunc. rewrite Rlt_bool_false by exact Ha. reflexivity. }
+  set (t := Zfloor (RV a)) in *. set (d := (t mod 360)%Z).
+  pose proof (Z.mod_pos_bound t 360 ltac:(lia)) as Hd. fold d in Hd.
+  destruct (b64_of_Z_exact d ltac:(lia)) as [Hdv Fd].
+  destruct (b64_fmod_1_value a Fa) as [Hm Fm].
+  assert (Ztrunc (RV a) = t) as Htr by (unfold Ztrunc; rewrite Rlt_bool_false by exact Ha; reflexivity).
+  rewrite Htr in Hm.
+  assert (Zfloor (RV a / 360) = (t / 360)%Z) as Hq by (apply (floor_div_nested (RV a) 360); lia).
+  set (v := RV a - 360 * IZR (Zfloor (RV a / 360))).
+  assert (IZR d + (RV a - IZR t) = v) as Hsum.
+  { unfold v. rewrite Hq. unfold d. rewrite Z.mod_eq by lia. rewrite minus_IZR, mult_IZR. ring. }
+  assert (fmt v) as Fv.
+  { unfold v. replace (360 * IZR (Zfloor (RV a / 360))) with (IZR (Zfloor (RV a / 360)) * 360) by ring.
+    apply (format_REM radix2 fexp64 Zfloor _ (RV a) 360).
+    - intro Hs. apply Zfloor_imp. simpl. apply Rabs_lt_inv in Hs.
+      assert (0 <= RV a / 360) by (apply Rmult_le_pos; lra). lra.
+    - apply fmt_RV.
+    - apply (int_fmt 360). lia. }
+  assert (0 <= v < 360) as Hv.
+  { unfold v. pose proof (Zfloor_lb (RV a / 360)). pose proof (Zfloor_ub (RV a / 360)).
+    assert (RV a = 360 * (RV a / 360)) as E by field. split; lra. }
+  assert (RN (RV (b64_of_Z d) + RV (b64_fmod a 1)) = v) as E.
+  { rewrite Hdv, Hm, Hsum. apply round_generic; [apply valid_rnd_N | exact Fv]. }
+  destruct (add_R (b64_of_Z d) (b64_fmod a 1) Fd Fm) as [A B].
+  { rewrite E. apply small_lt_emax. rewrite Rabs_pos_eq; lra. }
+  unfold s. rewrite Ht. fold d. rewrite A, E. split; [reflexivity|]. split; [exact B | exact Hv].
+Qed.
+
+(* multiplying by +-1.0 is exact *)
+Lemma mul_one_l s : fin s -> RV (1 * s) = RV s /\ fin (1 * s).
+Proof.
+  intro Fs. destruct (mul_R 1 s fin_one Fs) as [A B].
+  - rewrite RV_one, Rmult_1_l, round_generic by (try apply valid_rnd_N; apply fmt_RV). apply RV_lt_emax.
+  - rewrite RV_one, Rmult_1_l, round_generic in A by (try apply valid_rnd_N; apply fmt_RV). split; assumption.
+Qed.
+Lemma RV_mone : RV (-1)%float = -1.
+Proof. rewrite RV_SF. vm_compute Prim2SF. unfold SF2R, F2R. simpl. lra. Qed.
+Lemma fin_mone : fin (-1)%float.
+Proof. apply fin_prim. reflexivity. Qed.
+Lemma mul_mone_l s : fin s -> RV (-1 * s) = - RV s /\ fin (-1 * s).
+Proof.
+  intro Fs.
+  assert (RN (RV (-1) * RV s) = - RV s) as E.
+  { rewrite RV_mone. replace (-1 * RV s) with (- RV s) by ring.
+    apply round_generic; [apply valid_rnd_N | apply generic_format_opp; apply fmt_RV]. }
+  destruct (mul_R (-1) s fin_mone Fs) as [A B].
+  - rewrite E, Rabs_Ropp. apply RV_lt_emax.
+  - rewrite E in A. split; assumption.
+Qed.
+
+(* ------------------------------------------------------------- assumptions *)
+(* stdlib reals (ClassicalDedekindReals, functional extensionality), classic, and the
+   FloatAxioms / Uint63 specification axioms of the primitive types that Flocq's bridge uses *)
+Print Assumptions b64_floor_correct.
+Print Assumptions b64_trunc_correct.
+Print Assumptions b64_fmod_1_correct.
+Print Assumptions b64_fmod_1_value.
+Print Assumptions b64_of_Z_correct.
+Print Assumptions b64_round_correct.
+Print Assumptions reduce_kernel.
